@@ -74,3 +74,13 @@ def proc_macro_text_has_nonword_token(text: str | None, case: Any) -> bool:
     raw = case.get("raw", "") if isinstance(case, dict) else ""
     nested = bool(re.search(r"[(\[][^)\]]*[(\[]", raw))
     return "`" in raw or bool(re.search(r"(?i)(?<![a-z0-9_])[rbup]*f[rbup]*['\"]", raw)) or nested
+
+
+def fstring_has_doubled_brace(text: str | None, case: Any) -> bool:
+    return bool(text) and ("{{" in text or "}}" in text)
+
+
+def newline_in_format_spec(text: str | None, case: Any) -> bool:
+    import re
+
+    return bool(text) and bool(re.search(r"\{[^{}]*:[^{}'\"]*\r?\n", text))
